@@ -37,7 +37,7 @@ abbrev EF : Facts := Expected.C05.facts
 
 abbrev OF : Facts := Expected.C05.oldFacts
 
-/-- the values of the selector facts since 4f1c6ee, 837b81e, efcbde2, a60b058, 43e97a5 -/
+/-- the values of the selector facts since 4f1c6ee, 837b81e, efcbde2, a60b058, f4dfaf4 -/
 def selFacts (F : Facts) : Prop :=
   F.methodPick = .shallowest ∧ F.methodAmbiguityCheck = true ∧ F.fieldLoopEmbedOnly = true ∧
   F.fieldPick = .shallowest ∧ F.fieldDepthMinus = 1 ∧ F.fieldAmbiguityCheck = true
@@ -303,7 +303,7 @@ def tieDecls : Decls :=
     .strct "S" [⟨"ns", .int, 0⟩, ⟨"A", .emb, 0⟩, ⟨"B", .emb, 1⟩] [] ]
 
 /-- **regression of F05-17**: two fields at the same shallowest depth are ambiguous under both rule
-    sets, the program is rejected; without the `fieldCount` test (before 43e97a5) `lookupField` took
+    sets, the program is rejected; without the `fieldCount` test (before f4dfaf4) `lookupField` took
     the first one and the program ran -/
 example :
     WF tieDecls ∧ select tieDecls 2 "M" = .ambiguous ∧ selectY EF tieDecls 2 "M" = .ambiguous ∧
